@@ -95,10 +95,10 @@ def _simplify(ctx, p, ci):
     pts = P(ci)
     which = rng.choice(['rdp', 'grdp', 'grdp', 'rdp_fixed', 'mp_grdp', 'min_point_rdp', 'min_point_rdp'])
     cost = E('metrics.Metrics.' + rng.choice(METRICS))
-    t = F(rng.choice([0.5, 0.1, 0.05, 0.01, 0.001]))
+    t = F(rng.choice([0.5, 0.1, 0.05, 0.01, 0.001, 0.001, 0.0]))
     if 'r2' in cost['enum']:
-        t = F(rng.choice([0.5, 0.8, 0.9, 0.95, 0.99]))
-    dist = E('rdp.Distance.shortest')
+        t = F(rng.choice([0.5, 0.8, 0.9, 0.95, 0.99, 1.0]))
+    dist = E('rdp.Distance.shortest') if rng.random() < 0.93 else E('rdp.Distance.perpendicular')
     order = E('rdp.Order.' + rng.choice(ORDERS))
     if which == 'rdp':
         # plain rdp can fail to terminate on exact collinear runs / y == 0 chords (C01 territory): the
@@ -138,7 +138,7 @@ def _detect(ctx, p, pts):
         return p.call('zmethod.knees2', pts, dx=F(0.05), dy=F(0.05), out=E('zmethod.Outlier.' + rng.choice(['zscore', 'iqr', 'hampel'])))
     # single-knee detectors wrapped by the generic multi_knee with a public callable
     det = rng.choice(['curvature.knee', 'dfdt.knee', 'menger.knee', 'lmethod.knee', 'kneedle.knee'])
-    return p.call('multi_knee.multi_knee', FN(det), pts, t1, rng.choice([3, 4, 5]),
+    return p.call('multi_knee.multi_knee', FN(det), pts, t1, rng.choice([3, 4, 5, 1]),
                   E('metrics.Metrics.' + rng.choice(['r2', 'smape', 'rmspe'])))
 
 
@@ -280,6 +280,8 @@ def primitives(ctx):
                 p.call('linear_fit.linear_fit_transform', xs, ys, True)
             if rng.random() < 0.3:
                 p.call('linear_fit.r2_points', seg, E('metrics.R2.adjusted'))
+            if rng.random() < 0.2:
+                p.call('linear_fit.r2_points', SL(pts, a, a + 2))
         elif g == 'lf_dist':
             p.call('linear_fit.shortest_distance_points', seg, ROW(pts, a), ROW(pts, b))
             p.call('linear_fit.cross2d', seg, SL(pts, 0, b + 1 - a))
